@@ -207,6 +207,7 @@ func (c *checker) reportPanic(s subject, recv, name string, o outcome) {
 	if old, ok := c.sites[name][o.site]; !ok || len(min) < len(old) {
 		c.sites[name][o.site] = min
 	}
+	fmt.Printf("PANIC-KEY %s|%s site=%s\n", name, min, o.site)
 	c.run.Violation("panic", name+"|"+min, map[string]any{
 		"accessor": name, "receiver": recv, "minimal_input": min, "original_input": trunc(s.compact, 600), "original_wire": trunc(fmt.Sprintf("%q", s.wire), 600),
 		"origin": s.origin, "panic": o.pan, "site": o.site,
@@ -244,7 +245,27 @@ func (c *checker) classify(err error) {
 		c.run.Observe("classifier_calls", 1)
 		if o := invoke(rv, m); o.panicked {
 			c.run.Observe("panics", 1)
-			min := strconv.Quote(text)
+			// smallest text (deleting bytes) on which the same classifier raises the same panic at the same site
+			mt := text
+			for changed := true; changed; {
+				changed = false
+				for i := 0; i < len(mt); i++ {
+					cand := mt[:i] + mt[i+1:]
+					cm, err := decodeWire(resp.Encode(nil, resp.V{T: '!', S: cand}))
+					if err != nil {
+						continue
+					}
+					ce, _ := (&cm).Error().(*rueidis.RedisError)
+					if ce == nil {
+						continue
+					}
+					if o2 := invoke(reflect.ValueOf(ce), m); o2.panicked && o2.site == o.site && o2.pan == o.pan {
+						mt, changed = cand, true
+						break
+					}
+				}
+			}
+			min := strconv.Quote(mt)
 			if c.sites[m.name] == nil {
 				c.sites[m.name] = map[string]string{}
 			}
@@ -409,6 +430,11 @@ func variants(v resp.V) []resp.V {
 			}
 			out = append(out, c)
 		}
+		for i := 0; i+1 < len(v.A); i++ { // remove two adjacent elements (keeps the parity of a streamed map)
+			c := v
+			c.A = append(append([]resp.V{}, v.A[:i]...), v.A[i+2:]...)
+			out = append(out, c)
+		}
 		if v.Stream && (v.T != '%' || len(v.A)%2 == 0) {
 			c := v
 			c.Stream = false
@@ -424,26 +450,25 @@ func variants(v resp.V) []resp.V {
 				out = append(out, cloneWith(v, i, cv))
 			}
 		}
-		return out
+		return append(out, canonScalars...)
 	}
-	// scalars: the simplest scalar is an empty bulk string
-	if !(v.T == '$' && v.S == "" && !v.Stream && !v.Null2) {
-		out = append(out, resp.Bulk(""))
-	}
-	if v.T == '$' && !v.Null2 {
-		if v.Stream {
-			c := v
-			c.Stream, c.Chunks = false, nil
-			out = append(out, c)
-		}
-		if v.S != "" && v.S != "a" {
-			out = append(out, resp.Bulk("a"))
-		}
-	}
-	if v.T == ':' && v.I != 0 {
-		out = append(out, resp.Int(0))
+	// scalars: replace by a canonical scalar of lower rank
+	for _, cs := range canonScalars[:scalarRank(v)] {
+		out = append(out, cs)
 	}
 	return out
+}
+
+// canonical scalars in order of simplicity; everything else ranks after them
+var canonScalars = []resp.V{resp.Bulk(""), resp.Bulk("a"), resp.Bulk("1.5"), resp.Int(0), resp.Null()}
+
+func scalarRank(v resp.V) int {
+	for i, cs := range canonScalars {
+		if v.T == cs.T && v.S == cs.S && v.I == cs.I && !v.Stream && !v.Null2 && v.Attr == nil {
+			return i
+		}
+	}
+	return len(canonScalars)
 }
 
 func shrink(v resp.V, still func(resp.V) bool, budget *int) resp.V {
@@ -780,16 +805,6 @@ func TestC15(t *testing.T) {
 		}
 	}
 
-	// (c) error texts, as simple and blob errors; the classifiers are reached through the errors the accessors return
-	rng := run.Rand("errtexts")
-	c.classify(rueidis.Nil)
-	for _, text := range errorTexts(rng, run.N(1500, 60000)) {
-		c.check(sub("errtext", resp.V{T: '!', S: text}))
-		if !strings.ContainsAny(text, "\r\n") {
-			c.check(sub("errtext", resp.Err(text)))
-		}
-	}
-
 	// (d) curated wrong-type table
 	c.wrongType()
 
@@ -800,6 +815,16 @@ func TestC15(t *testing.T) {
 	// raw frames the generators do not cover: a bare end marker, end markers inside fixed aggregates, a streamed attribute with an odd element count
 	for _, w := range []string{".\r\n", "*2\r\n.\r\n.\r\n", "%1\r\n.\r\n.\r\n", "~?\r\n.\r\n", ">1\r\n+x\r\n", "|?\r\n+a\r\n.\r\n:1\r\n", "|?\r\n+a\r\n.\r\n%?\r\n+k\r\n.\r\n", "|1\r\n+a\r\n+b\r\n_\r\n", "|1\r\n+a\r\n+b\r\n-MOVED\r\n"} {
 		c.check(subject{origin: "raw", compact: strconv.Quote(w), wire: []byte(w)})
+	}
+
+	// (c) error texts, as simple and blob errors; the classifiers are reached through the errors the accessors return
+	rng := run.Rand("errtexts")
+	c.classify(rueidis.Nil)
+	for _, text := range errorTexts(rng, run.N(1500, 60000)) {
+		c.check(sub("errtext", resp.V{T: '!', S: text}))
+		if !strings.ContainsAny(text, "\r\n") {
+			c.check(sub("errtext", resp.Err(text)))
+		}
 	}
 
 	// (b1) every single mutation of the canonical structured replies
